@@ -169,7 +169,10 @@ def fields(draw, versions: list[int], flex: set[int], top: int, depth: int, stru
             f["name"] = draw(field_name(used))
             sname = None
             for _ in range(20):
-                cand = "Dft" + draw(st.sampled_from(WORDS)) + draw(st.sampled_from(["Data", "Info", "Entry", "Item", "Spec"]))
+                if draw(st.booleans()):
+                    cand = draw(st.sampled_from(["TopicData", "PartitionData", "ZedSharedItem"]))  # the pool shared across definitions
+                else:
+                    cand = "Dft" + draw(st.sampled_from(WORDS)) + draw(st.sampled_from(["Data", "Info", "Entry", "Item", "Spec"]))
                 if cand not in struct_names:
                     sname = cand
                     struct_names.add(cand)
@@ -296,10 +299,63 @@ def definition(draw, api_word: str, api_key: int, nullable_prim_arrays: bool = F
 
 
 @st.composite
+def sibling(draw, defn: dict, api_key: int) -> dict:
+    """A second message that declares the SAME struct names as `defn` with slightly different bodies: plain primitive
+    members gain or lose their explicit default.  Upstream does this all the time (TopicData, PartitionData, ... differ
+    from message to message); it is what exposes generator state keyed by struct name instead of by message."""
+    import copy
+
+    twin = copy.deepcopy(defn)
+    for suffix in ("Request", "Response", "Record"):
+        if twin["name"].endswith(suffix):
+            twin["name"] = twin["name"][: -len(suffix)] + "Twin" + suffix
+            break
+    if "apiKey" in twin:
+        twin["apiKey"] = api_key
+
+    def perturb(fields: list) -> None:
+        for f in fields:
+            if "fields" in f:
+                perturb(f["fields"])
+                continue
+            t = f["type"]
+            if t.startswith("[]") or "tag" in f or "nullableVersions" in f or "entityType" in f or f["name"].endswith("Ms") \
+                    or f["name"] in ("ErrorCode", "PartitionErrorCode"):
+                continue
+            if "default" in f:
+                if draw(st.booleans()):
+                    del f["default"]
+            elif draw(st.booleans()):
+                if t in INT_TYPES:
+                    f["default"] = "1"
+                elif t == "bool":
+                    f["default"] = "true"
+                elif t == "float64":
+                    f["default"] = "1.5"
+                elif t == "string":
+                    f["default"] = "x"
+
+    perturb(twin["fields"])
+    for c in twin.get("commonStructs", []):
+        perturb(c["fields"])
+    return twin
+
+
+@st.composite
 def batches(draw, max_defs: int = 6, nullable_prim_arrays: bool = False):
     n = draw(st.integers(1, max_defs))
     words = draw(st.lists(st.sampled_from(["Frobnicate", "Wibble", "Quux", "Zorch", "Blarg", "Snafu", "Plugh", "Xyzzy", "Thud", "Grault",
                                            "DescribeWidget", "AlterISRState", "ListV2Things"]), min_size=n, max_size=n, unique=True))
     keys = draw(st.lists(st.one_of(st.sampled_from([7, 18]), st.integers(100, 30000), st.integers(100, 30000)),
                          min_size=n, max_size=n, unique=True))
-    return [draw(definition(w, k, nullable_prim_arrays)) for w, k in zip(words, keys)]
+    defs = [draw(definition(w, k, nullable_prim_arrays)) for w, k in zip(words, keys)]
+    if draw(st.booleans()):
+        # a sibling of one of them in the same generator run, before or after it in file order
+        src = draw(st.sampled_from(defs))
+        key = draw(st.integers(30001, 32000).filter(lambda k: k not in keys))
+        twin = draw(sibling(src, key))
+        if draw(st.booleans()):
+            defs.append(twin)
+        else:
+            defs.insert(0, twin)
+    return defs
